@@ -68,6 +68,22 @@ def classify_outcome(s, e):
     return None
 
 
+_MEM = [False]
+
+
+def _limit_memory():
+    """safety net: an input whose result grows exponentially must end in a
+    MemoryError of this worker (reported as a leak), not in the kernel
+    killing it"""
+    if not _MEM[0]:
+        _MEM[0] = True
+        try:
+            import resource
+            resource.setrlimit(resource.RLIMIT_AS, (3 << 30, 3 << 30))
+        except Exception:
+            pass
+
+
 def parse_outcome(s, tol, ctx):
     """-> (kind, soup|exception|None, failure|None) with kind in
     tree / diagnostic / leak / budget"""
@@ -76,6 +92,7 @@ def parse_outcome(s, tol, ctx):
     install.STEP_BUDGET['limit'] = budget(len(s))
     install.LOOP_BUDGET['limit'] = loop_budget(len(s))
     ctx.case_info = {}
+    _limit_memory()
     try:
         soup = TexSoup(s, tolerance=tol)
     except ProbeAbort as e:
@@ -131,7 +148,7 @@ class C06(Prop):
     level = 'fault_enumeration'
     rule = ('cases (each parsed with tolerance 0 and 1): (i) every string over '
             'the 25-character category alphabet up to the length bound; (ii) '
-            'every string over the 70-token alphabet up to the bound; (iii) '
+            'every string over the 78-token alphabet up to the bound; (iii) '
             'seeded random token strings (incl. NUL/DEL/CR and bare signature '
             'commands) up to 14 tokens; (iv) every prefix, single-character '
             'deletion, sampled insertion and adjacent transposition of W1 '
@@ -155,16 +172,16 @@ class C06(Prop):
     budget_s = {'quick': 300, 'thorough': 5400}
     exhaustive = {
         'quick': 'all strings of length <= 3 over the 25-character alphabet and '
-                 'of length <= 2 over the 70-token alphabet, x tolerance {0,1}',
-        'thorough': 'all strings of length <= 5 over the 25-character alphabet '
-                    'and of length <= 3 over the 70-token alphabet, x tolerance {0,1}',
+                 'of length <= 2 over the 78-token alphabet, x tolerance {0,1}',
+        'thorough': 'all strings of length <= 4 over the 25-character alphabet '
+                    'and of length <= 3 over the 78-token alphabet, x tolerance {0,1}',
     }
 
     def cases(self, tier, seed, want):
         q = tier == 'quick'
         k = 0
         # exhaustive parts (bounds differ per tier), then sampled longer ones
-        Lc, Lt = (3, 2) if q else (5, 3)
+        Lc, Lt = (3, 2) if q else (4, 3)
         for k2, tup in strgen.enum_strings(strgen.CHARS, 0, Lc, start_k=k):
             if want(k2):
                 yield k2, {'s': ''.join(tup), 'w': 'chars'}
@@ -270,7 +287,33 @@ class C06(Prop):
         from TexSoup import TexSoup
         from tsv.probe import install
         fails = []
+        _limit_memory()
         for tol in (0, 1):
+            # size of the result at depth 6 vs 9 first (cheap): a result that
+            # doubles per level must not be driven to depth 12 (2 fragments a
+            # level: 24 levels, gigabytes)
+            size = {}
+            for d in (6, 9):
+                s = p['unit'] * d + 'x' + p['closer'] * d
+                install.STEP_BUDGET['limit'] = 20000
+                ctx.case_info = {}
+                try:
+                    size[d] = len(str(TexSoup(s, tolerance=tol)))
+                except MemoryError:
+                    size[d] = 1 << 40
+                except BaseException:
+                    size[d] = 0
+                finally:
+                    install.STEP_BUDGET['limit'] = None
+            ctx.maxi('max:output_growth_ratio_x100', int(100 * size[9] / max(size[6], 1)))
+            if size[9] > 4000 and size[9] > 8 * size[6]:
+                fails.append(fail('super-polynomial-output',
+                                  'tolerance=%d: nesting %s…%s gives a result of %d characters at depth 6 and %s at depth 9 '
+                                  '(x%.1f for 3 more levels; at depth 40 it cannot be held in memory)'
+                                  % (tol, short(repr(p['unit']), 40), short(repr(p['closer']), 20), size[6],
+                                     size[9] if size[9] < (1 << 40) else 'MemoryError',
+                                     size[9] / max(size[6], 1)), tol=tol))
+                continue
             n = {}
             for d in (8, 12):
                 s = p['unit'] * d + 'x' + p['closer'] * d
@@ -392,4 +435,30 @@ def _d21(prop, p, fails, rerun):
     for key in ('s', 'unit', 'closer'):
         if key in q:
             q[key] = re.sub(r'\\end(?=\s*\{)', r'\\xnd', q[key])
+    return findings.fixed_by(p, q, fails, rerun)
+
+
+_NESTED_NAME = None
+
+
+@findings.classifier('tolerant-name-nesting-doubles-output')
+def _d24(prop, p, fails, rerun):
+    r"""D24: in tolerant mode an environment opened inside the (unclosed)
+    name of another environment is printed twice per level - once in the
+    `\begin{name}`, once in the `\end{name}` that tolerant mode inserts - so
+    the size of the result doubles with every level of such nesting."""
+    import re
+    if findings.checks_of(fails) - {'super-polynomial-output', 'leak', 'timeout', 'step-budget', 'loop-budget'}:
+        return False
+    if any(f.get('tol') != 1 for f in fails if f['check'] != 'timeout'):
+        return False
+    if any(f['check'] == 'leak' and 'MemoryError' not in f['detail'] for f in fails):
+        return False
+    text = p['unit'] * 3 if p.get('w') == 'growth' else p['s']
+    if not re.search(r'\\begin\s*\{[^{}]*\\begin', text):
+        return False
+    q = dict(p)
+    for key in ('s', 'unit'):
+        if key in q:
+            q[key] = re.sub(r'\\begin(?=\s*\{)', r'\\bgn', q[key])
     return findings.fixed_by(p, q, fails, rerun)
